@@ -1131,8 +1131,10 @@ class Fxp():
         return val
 
     def _round(self, val, method='floor'):
-        if isinstance(val, int) or np.issubdtype(np.array(val).dtype, np.integer) or np.issubdtype(np.array(val).dtype, np.object_):
+        if isinstance(val, int) or np.issubdtype(np.array(val).dtype, np.integer):
             rval = val
+        elif np.issubdtype(np.array(val).dtype, np.object_):
+            rval = utils.round_object(val, method)      # python numbers: floats among them still have to be rounded
         elif method == 'around':
             rval = np.around(val)
         elif method == 'floor':
